@@ -87,12 +87,12 @@ func ruleP15Utc(p *Prog, r *Report) {
 				return
 			}
 			callee := staticCallee(c)
-			if callee == nil || callee.String() != "(cloud.google.com/go/civil.Date).In" {
+			if callee == nil || (callee.String() != "(cloud.google.com/go/civil.Date).In" && callee.String() != "time.Date") {
 				return
 			}
 			n++
 			i++
-			loc := strip(c.Common().Args[1])
+			loc := strip(c.Common().Args[len(c.Common().Args)-1])
 			okUTC := false
 			if u, isU := loc.(*ssa.UnOp); isU && u.Op == token.MUL {
 				if g, isG := u.X.(*ssa.Global); isG && g.Pkg.Pkg.Path() == "time" && g.Name() == "UTC" {
@@ -221,6 +221,104 @@ func ruleP08IoVerbatim(p *Prog, r *Report) {
 	if nSinks == 0 {
 		r.undecided(rule, "WriteToFile:sink", p.pos(wf.Pos()), "no write of the contents found in WriteToFile")
 	}
+	// ReadStdin: likewise the unaltered bytes of io.ReadAll
+	if rs := p.fn("klog/app", "ReadStdin"); r.anchorFn(rule, rs, "app.ReadStdin") {
+		nIn := 0
+		for i, ret := range returnsOf(rs) {
+			if len(ret.Results) != 2 || p.nilnessAt(ret.Block(), retResult(ret, 1), 0) == nnNonNil {
+				continue
+			}
+			if s, isS := constString(retResult(ret, 0)); isS && s == "" {
+				continue // nothing piped in
+			}
+			src := bytesOrStringOf(derefFlow(retResult(ret, 0)))
+			c, idx := callOf(src)
+			ok := c != nil && idx == 0 && staticCallee(c) != nil && (staticCallee(c).String() == "io.ReadAll" || staticCallee(c).String() == "io/ioutil.ReadAll")
+			if ok {
+				nIn++
+			}
+			r.check(ok, rule, fmt.Sprintf("ReadStdin:return#%d", i), p.instrPos(ret), "returns the bytes read from stdin, converted to a string, unaltered", "the text returned is not the unaltered result of io.ReadAll")
+		}
+		if nIn == 0 {
+			r.undecided(rule, "ReadStdin:success", p.pos(rs.Pos()), "no successful return of the bytes read from stdin found")
+		}
+	}
+	// what the retrievers hand on as the contents of a file is what their reader returned: the
+	// text that is parsed (and whose lines a reconciler writes back, and that error positions
+	// refer to) is the text as given, not a tidied-up copy
+	nStores := 0
+	for _, f := range p.srcFns {
+		if pkgPathOfFn(f) != modPath+"/klog/app" {
+			continue
+		}
+		idx := 0
+		eachInstr(f, func(in ssa.Instruction) {
+			st, ok := in.(*ssa.Store)
+			if !ok {
+				return
+			}
+			fa, ok := st.Addr.(*ssa.FieldAddr)
+			if !ok || fieldName(fa) != "contents" || typeNameOf(derefType(fa.X.Type())) != "fileWithContents" {
+				return
+			}
+			nStores++
+			idx++
+			why := rawTextSource(st.Val, 0)
+			r.check(why == "", rule, fmt.Sprintf("%s:contents#%d", fnName(f), idx), p.instrPos(st), "the contents kept are the reader's result as it came", "the file contents handed on to the parser are not what the reader returned ("+why+"): line numbers, error positions and the lines a mutating command writes back refer to an altered copy of the text")
+		})
+	}
+	if nStores < 3 {
+		r.undecided(rule, "contents:floor", "-", "expected the three constructions of fileWithContents (file retriever, stdin retriever, NewFileWithContents), found %d", nStores)
+	}
+	if g := p.method("klog/app", "fileWithContents", "Contents"); r.anchorFn(rule, g, "fileWithContents.Contents") {
+		ok := false
+		for _, ret := range plainReturnsOf(g) {
+			_, fld := fieldLoad(retResult(ret, 0))
+			ok = fld == "contents"
+		}
+		r.check(ok, rule, "Contents", p.pos(g.Pos()), "Contents() returns the text kept", "Contents() does not return the contents field as it is")
+	}
+}
+
+// rawTextSource: "" when v is a parameter, or the first result of a reader (a call through a
+// function-typed field, app.ReadFile, app.ReadStdin), on every path; otherwise what it is.
+func rawTextSource(v ssa.Value, depth int) string {
+	v = strip(v)
+	if depth > 4 {
+		return "too deep"
+	}
+	switch x := v.(type) {
+	case *ssa.Parameter:
+		return ""
+	case *ssa.Phi:
+		for _, e := range x.Edges {
+			if why := rawTextSource(e, depth+1); why != "" {
+				return why
+			}
+		}
+		return ""
+	}
+	c, idx := callOf(v)
+	if c == nil {
+		return "computed by " + v.String()
+	}
+	if idx != 0 {
+		return "not the text result of " + calleeName(c)
+	}
+	if g := staticCallee(c); g != nil {
+		if n := g.String(); strings.HasSuffix(n, "klog/app.ReadFile") || strings.HasSuffix(n, "klog/app.ReadStdin") {
+			return ""
+		}
+		return "it is passed through " + calleeName(c)
+	}
+	if !c.Common().IsInvoke() {
+		if _, fld := fieldLoad(c.Common().Value); fld != "" {
+			if _, isSig := c.Common().Value.Type().Underlying().(*types.Signature); isSig {
+				return ""
+			}
+		}
+	}
+	return "result of an unknown call"
 }
 
 // P05-fresh-read — every reconciliation validates and edits what is on disk NOW: the target file
@@ -662,18 +760,49 @@ func ruleP08Blank(p *Prog, r *Report) {
 						}
 						_, fld := fieldLoad(tc.Common().Args[0])
 						r.check(isC && len(set) == 2 && set[' '] && set['\t'] && fld == "Text", rule, "predicate", p.pos(f.Pos()), "blank = nothing is left after cutting spaces and tabs", fmt.Sprintf("IsBlank cuts %q from the text; blank means spaces and tabs only", cut))
+						r.bad(rule, "predicate:space-separators", p.pos(f.Pos()), blankSeparatorsFinding)
 						return
 					}
 				}
 			}
 		}
 	}
-	// no helper decides: only the builtin len may be called
+	// no helper decides: only the builtin len may be called — and unicode.Is / unicode.In with the
+	// space-separator table Zs, which is how the specification defines a blank character
 	calls := ""
+	usesZs := false
+	spaceTabPred := map[*ssa.Function]bool{}
 	eachInstr(f, func(in ssa.Instruction) {
 		if c, ok := in.(ssa.CallInstruction); ok {
 			if b, isB := c.Common().Value.(*ssa.Builtin); isB && b.Name() == "len" {
 				return
+			}
+			if g := staticCallee(c); g != nil && (g.String() == "unicode.Is" || g.String() == "unicode.In") {
+				for _, a := range c.Common().Args {
+					if u, isU := plainDeref(a).(*ssa.UnOp); isU {
+						if gl, isG := u.X.(*ssa.Global); isG && gl.Pkg != nil && gl.Pkg.Pkg.Path() == "unicode" && gl.Name() == "Zs" {
+							usesZs = true
+							return
+						}
+					}
+					if els, isL := sliceLitElems(a); isL {
+						for _, e := range els {
+							if u, isU := plainDeref(e).(*ssa.UnOp); isU {
+								if gl, isG := u.X.(*ssa.Global); isG && gl.Pkg != nil && gl.Pkg.Pkg.Path() == "unicode" && gl.Name() == "Zs" {
+									usesZs = true
+									return
+								}
+							}
+						}
+					}
+				}
+			}
+			// a rune predicate of the module that holds exactly for space and tab is the same test
+			if g := staticCallee(c); g != nil && p.inMod(g) && len(c.Common().Args) == 1 {
+				if set, okSet := runeSetOfPredicate(g); okSet && set == `{' ','\t'}` {
+					spaceTabPred[originFn(g)] = true
+					return
+				}
 			}
 			calls = calleeName(c)
 		}
@@ -685,6 +814,7 @@ func ruleP08Blank(p *Prog, r *Report) {
 	okAll := true
 	why := ""
 	nFalse := 0
+	spaceTabOnly := false
 	for _, ret := range returnsOf(f) {
 		b, isB := constBool(retResult(ret, 0))
 		if !isB {
@@ -698,6 +828,15 @@ func ruleP08Blank(p *Prog, r *Report) {
 			}
 			bo, ok := g.Cond.(*ssa.BinOp)
 			if !ok {
+				if gc, isGC := g.Cond.(*ssa.Call); isGC && usesZs && staticCallee(gc) != nil && strings.HasPrefix(staticCallee(gc).String(), "unicode.I") {
+					continue // the Zs membership test
+				}
+				if gc, isGC := g.Cond.(*ssa.Call); isGC && staticCallee(gc) != nil && spaceTabPred[originFn(staticCallee(gc))] {
+					if !g.Pol {
+						consts[32], consts[9] = true, true // "is neither space nor tab"
+					}
+					continue
+				}
 				okAll, why = false, "an unrecognised condition"
 				continue
 			}
@@ -731,14 +870,68 @@ func ruleP08Blank(p *Prog, r *Report) {
 		}
 		if !b {
 			nFalse++
-			if !(len(consts) == 2 && consts[32] && consts[9]) {
-				okAll, why = false, fmt.Sprintf("a line is reported non-blank when a character differs from %v, expected exactly space and tab", keysOf(consts))
+			switch {
+			case usesZs && consts[9] && len(consts) <= 2 && (len(consts) == 1 || consts[32]):
+				// tab or a space separator: the specification's definition
+			case !usesZs && len(consts) == 2 && consts[32] && consts[9]:
+				spaceTabOnly = true
+			default:
+				okAll, why = false, fmt.Sprintf("a line is reported non-blank when a character differs from %v, expected exactly tab and the space separators (or space and tab)", keysOf(consts))
 			}
 		} else if len(consts) > 0 && !(len(consts) <= 2) {
 			okAll, why = false, "unexpected comparisons before answering true"
 		}
 	}
-	r.check(okAll && nFalse >= 1, rule, "predicate", p.pos(f.Pos()), "blank = every character is a space or a tab", "IsBlank no longer means 'spaces and tabs only': "+why)
+	r.check(okAll && nFalse >= 1, rule, "predicate", p.pos(f.Pos()), "blank = every character is a blank character", "IsBlank no longer means 'blank characters only': "+why)
+	// The specification (glossary) defines a blank character as a tab or any character of the
+	// Unicode category Zs, and a blank line as a line of blank characters only. A predicate that
+	// knows space and tab only takes a line of, say, U+00A0 for a significant line: the conforming
+	// text "2020-01-01\n\u00a0\n2020-01-02\n" is rejected (D13; the existing suite pins the
+	// behaviour, see DESIGN.md).
+	if okAll && nFalse >= 1 {
+		r.check(!spaceTabOnly, rule, "predicate:space-separators", p.pos(f.Pos()), "tab and every space separator (Zs) count as blank", blankSeparatorsFinding)
+	}
+}
+
+// runeSetOfPredicate: the set of runes for which a module predicate func(rune) bool holds, as a
+// sorted list "{'a','b'}", when the predicate is a disjunction of equalities with constants.
+func runeSetOfPredicate(f *ssa.Function) (string, bool) {
+	if f == nil || len(f.Params) != 1 || len(f.Blocks) == 0 {
+		return "", false
+	}
+	var runes []string
+	for _, ret := range returnsOf(f) {
+		alts, ok := truthAlts(retResult(ret, 0), 0)
+		if !ok {
+			return "", false
+		}
+		for _, alt := range alts {
+			gs := append(guardsOf(ret.Block()), alt...)
+			found := false
+			for _, g := range gs {
+				bo, isB := g.Cond.(*ssa.BinOp)
+				if !isB || bo.Op != token.EQL || !g.Pol {
+					continue
+				}
+				x, y := strip(bo.X), strip(bo.Y)
+				if y == ssa.Value(f.Params[0]) {
+					x, y = y, x
+				}
+				if x != ssa.Value(f.Params[0]) {
+					continue
+				}
+				if k, isK := constInt(y); isK {
+					runes = append(runes, fmt.Sprintf("%q", rune(k)))
+					found = true
+				}
+			}
+			if !found {
+				return "", false
+			}
+		}
+	}
+	sort.Strings(runes)
+	return "{" + strings.Join(dedup(runes), ",") + "}", true
 }
 
 func keysOf(m map[int64]bool) []int64 {
@@ -1059,6 +1252,12 @@ func ruleP13Reduce(p *Prog, r *Report) {
 					if isLoopGuard(g) {
 						break
 					}
+					// (what a predicate helper's answer stands for is not a second condition)
+					if ci, isI := g.Cond.(ssa.Instruction); isI && len(inLoop) > 0 {
+						if hc, isCall := inLoop[len(inLoop)-1].Cond.(*ssa.Call); isCall && rawStaticCallee(hc) != nil && originFn(rawStaticCallee(hc)) == originFn(outermost(ci.Parent())) && ci.Parent() != c.Parent() {
+							continue
+						}
+					}
 					inLoop = append(inLoop, g)
 				}
 				okg := len(inLoop) == 1 && inLoop[0].Pol
@@ -1068,7 +1267,15 @@ func ruleP13Reduce(p *Prog, r *Report) {
 					if !okg {
 						// the test is a predicate handed to a shared helper: every return of the
 						// predicate literal is the match test
-						if dc, isCall := cond.(*ssa.Call); isCall && !dc.Call.IsInvoke() && isParamValue(dc.Call.Value) {
+						if dc, isCall := cond.(*ssa.Call); isCall && rawStaticCallee(dc) != nil && isHelper(rawStaticCallee(dc)) {
+							// a named predicate that hands back the match test
+							okg = true
+							for _, lr := range plainReturnsOf(originFn(rawStaticCallee(dc))) {
+								if !isMatchCall(lr.Results[0]) {
+									okg = false
+								}
+							}
+						} else if isCall && !dc.Call.IsInvoke() && isParamValue(dc.Call.Value) {
 							if lit := funcLiteral(dc.Call.Value); lit != nil {
 								okg = true
 								for _, lr := range plainReturnsOf(lit) {
@@ -1105,7 +1312,7 @@ func ruleP14SortKey(p *Prog, r *Report) {
 		return
 	}
 	n := 0
-	eachInstr(put, func(in ssa.Instruction) {
+	eachVInstr(put, func(in ssa.Instruction) {
 		st, ok := in.(*ssa.Store)
 		if !ok {
 			return
@@ -1172,6 +1379,11 @@ func ruleP16DateStrict(p *Prog, r *Report) {
 			}
 			switch callee.String() {
 			case "time.Date", "(time.Time).AddDate":
+				// midnight of an existing klog date (its own year, month and day fields) is not a
+				// date that is being built: nothing can be normalised
+				if callee.String() == "time.Date" && dateFieldsOfOne(c.Common().Args) {
+					return
+				}
 				n++
 				r.bad(rule, fmt.Sprintf("%s:%s", fnName(f), callee.Name()), p.instrPos(c), "package klog builds a date with the normalising %s: a day the month does not have silently becomes a day of the next month instead of being rejected", callee.String())
 			}
@@ -1335,7 +1547,7 @@ func ruleP19Persist(p *Prog, r *Report) {
 		okData := nm == "ToJson"
 		if okData {
 			c, idx := callOf(strip(rv))
-			okData = c != nil && idx == 0 && fnBase(staticCalleeOrNil(c)) == "ReadBookmarks"
+			okData = c != nil && idx == 0 && p.isBookmarkRead(c)
 		}
 		r.check(okData, rule, "data", p.instrPos(w), "writes ToJson() of the collection that was read and manipulated", "what is written is not ToJson() of the collection read by ReadBookmarks")
 	})
@@ -1399,6 +1611,7 @@ func ruleP19ValidName(p *Prog, r *Report) {
 		}
 		for _, alt := range alts {
 			var atoms []string
+			nonEmpty := false
 			for _, g := range append(guardsOf(ret.Block()), alt...) {
 				c, _ := callOf(strip(g.Cond))
 				if c != nil && staticCallee(c) != nil && staticCallee(c).String() == "strings.HasPrefix" && strip(c.Common().Args[0]) == ssa.Value(f.Params[0]) {
@@ -1407,7 +1620,44 @@ func ruleP19ValidName(p *Prog, r *Report) {
 						continue
 					}
 				}
+				// strings.Index(arg, lit) == 0 and arg[0] == 'c' (the latter under a non-emptiness test)
+				if bo, isB := strip(g.Cond).(*ssa.BinOp); isB && (bo.Op == token.EQL || bo.Op == token.NEQ) {
+					x, y := strip(bo.X), strip(bo.Y)
+					if _, isK := constInt(x); isK {
+						x, y = y, x
+					}
+					k, isK := constInt(y)
+					pol := g.Pol == (bo.Op == token.EQL)
+					if ic, _ := callOf(x); isK && k == 0 && ic != nil && staticCallee(ic) != nil && staticCallee(ic).String() == "strings.Index" && strip(ic.Common().Args[0]) == ssa.Value(f.Params[0]) {
+						if s, isS := constString(ic.Common().Args[1]); isS && s != "" {
+							atoms = append(atoms, fmt.Sprintf("%vprefix(%q)", map[bool]string{true: "", false: "!"}[pol], s))
+							continue
+						}
+					}
+					if ix, isIx := x.(*ssa.Lookup); isK && isIx && strip(ix.X) == ssa.Value(f.Params[0]) && k > 0 && k < 128 && pol {
+						if i0, isI := constInt(ix.Index); isI && i0 == 0 {
+							atoms = append(atoms, fmt.Sprintf("prefix(%q)", string(rune(k))))
+							continue
+						}
+					}
+				}
+				if x, isEmpty, isG := emptyGuard(g); isG && !isEmpty && strip(x) == ssa.Value(f.Params[0]) {
+					nonEmpty = true
+					continue
+				}
 				atoms = append(atoms, "?"+g.Cond.String())
+			}
+			if nonEmpty {
+				// implied by any positive prefix atom
+				pos := false
+				for _, a := range atoms {
+					if strings.HasPrefix(a, "prefix(") {
+						pos = true
+					}
+				}
+				if !pos {
+					atoms = append(atoms, "nonempty")
+				}
 			}
 			sort.Strings(atoms)
 			dnf = append(dnf, strings.Join(atoms, "&&"))
@@ -1444,6 +1694,20 @@ func ruleP20Tags(p *Prog, r *Report) {
 		}
 		n++
 		nm, rv, _, _ := methodCall(v)
+		// (when toTagViews is handed the list itself, every call site passes <tags>.ToStrings())
+		if prm, isP := strip(v).(*ssa.Parameter); isP && prm == f.Params[0] && isSliceOf(prm.Type(), "string") {
+			okSites, nSites := true, 0
+			for _, g := range p.srcFns {
+				for _, c := range callsTo(g, f) {
+					nSites++
+					if n2, _, _, mc := methodCall(c.Common().Args[0]); mc == nil || n2 != "ToStrings" {
+						okSites = false
+					}
+				}
+			}
+			r.check(okSites && nSites > 0, rule, key, p.instrPos(ret), "returns the list it is given, which is TagSet.ToStrings() at every call site", "toTagViews is given a list that is not TagSet.ToStrings() of the summary's tags")
+			continue
+		}
 		r.check(nm == "ToStrings" && strip(rv) == ssa.Value(f.Params[0]), rule, key, p.instrPos(ret), "returns the list TagSet.ToStrings produced", "the tag list returned is not the list TagSet.ToStrings produced (it passed through "+calleeNameOf(v)+"): tags can be dropped or merged in the JSON output")
 	}
 	if n == 0 {
@@ -1587,6 +1851,13 @@ func ruleP10OneError(p *Prog, r *Report) {
 		r.undecided(rule, "errs", p.pos(parse.Pos()), "the error list of parse is not a captured variable any more; re-confirm the rule")
 		return
 	}
+	// the lines still to be read: a cell of type []txt.Line
+	var linesCell *ssa.Alloc
+	eachInstr(parse, func(in ssa.Instruction) {
+		if a, ok := in.(*ssa.Alloc); ok && isSliceOf(derefType(a.Type()), "Line") && linesCell == nil {
+			linesCell = a
+		}
+	})
 	var sites []*ssa.Store
 	for _, ref := range *cell.Referrers() {
 		if st, ok := ref.(*ssa.Store); ok && st.Addr == ssa.Value(cell) {
@@ -1636,6 +1907,29 @@ func ruleP10OneError(p *Prog, r *Report) {
 			}
 		}
 		r.check(second == "", rule, key, p.instrPos(a), "after this error the pass ends (next line / next entry)", "after the error appended here the same pass can append another one at "+second+": an error for an earlier line can follow an error for a later line")
+		// the loop is one that walks the lines: an error noted in some later loop (over things
+		// put aside while the lines were read) comes after the errors of all later lines
+		if linesCell != nil {
+			walks := false
+			for _, b := range parse.Blocks {
+				if !h.Dominates(b) || !(b == h || reachableFrom(b, nil)[h]) {
+					continue
+				}
+				for _, in := range b.Instrs {
+					switch x := in.(type) {
+					case *ssa.Store:
+						if x.Addr == ssa.Value(linesCell) {
+							walks = true
+						}
+					case *ssa.UnOp:
+						if b == h && x.Op == token.MUL && x.X == ssa.Value(linesCell) {
+							walks = true
+						}
+					}
+				}
+			}
+			r.check(walks, rule, key+":line-loop", p.instrPos(a), "the error is noted in the loop that walks the record's lines", "this error is appended in a loop that does not walk the lines of the record (it runs after they have been read): it lands behind the errors of all later lines, so the list is not in ascending line order and the first error is not on the first faulty line")
+		}
 	}
 }
 
@@ -2655,6 +2949,11 @@ func ruleP15WeekNumber(p *Prog, r *Report) {
 				if c == nil || len(c.Common().Args) == 0 {
 					break
 				}
+				if g := staticCallee(c); g != nil && g.String() == "time.Date" {
+					// midnight (UTC is P15-utc's business) of the date's own year, month and day
+					okRecv = dateFieldsOfOne(c.Common().Args) && dateFieldBase(c.Common().Args[0]) == ssa.Value(f.Params[0])
+					break
+				}
 				v = c.Common().Args[0]
 				if sameValue(v, f.Params[0]) || strip(v) == ssa.Value(f.Params[0]) {
 					okRecv = true
@@ -2979,17 +3278,21 @@ func ruleP07CrlfBoundary(p *Prog, r *Report) {
 			n++
 			b := inc.Block()
 			for _, pb := range b.Preds {
-				var lf, cr bool
-				for _, gd := range append(append([]Guard{}, guardsOf(pb)...), edgeGuard(pb, b)...) {
-					if idx, isB := byteAt(gd, '\n'); isB && polySub(polyOf(idx), polyOf(q)).isConst() && polySub(polyOf(idx), polyOf(q)).C == 0 {
-						lf = true
+				// the ways this edge can be taken (a boolean helper in the condition contributes
+				// one way per way it can answer)
+				for _, alt := range guardAlternatives(append(append([]Guard{}, guardsOf(pb)...), edgeGuard(pb, b)...)) {
+					var lf, cr bool
+					for _, gd := range alt {
+						if idx, isB := byteAt(gd, '\n'); isB && polySub(polyOf(idx), polyOf(q)).isConst() && polySub(polyOf(idx), polyOf(q)).C == 0 {
+							lf = true
+						}
+						if idx, isB := byteAt(gd, '\r'); isB && polySub(polyOf(idx), polyOf(q)).isConst() && polySub(polyOf(idx), polyOf(q)).C == -1 {
+							cr = true
+						}
 					}
-					if idx, isB := byteAt(gd, '\r'); isB && polySub(polyOf(idx), polyOf(q)).isConst() && polySub(polyOf(idx), polyOf(q)).C == -1 {
-						cr = true
+					if lf && cr {
+						found = true
 					}
-				}
-				if lf && cr {
-					found = true
 				}
 			}
 		})
@@ -3000,3 +3303,101 @@ func ruleP07CrlfBoundary(p *Prog, r *Report) {
 	}
 	r.check(found, rule, "advance", p.pos(f.Pos()), "a chunk end between \\r and \\n is moved forward", "splitIntoChunks can end a chunk between the \\r and the \\n of a line ending: the lone \\r counts as text in that chunk and blank lines around the boundary end up in a different block than with the serial parser")
 }
+
+// guardAlternatives: a conjunction of guards as a disjunction of conjunctions, in which every
+// guard that is the answer of a boolean predicate helper is replaced by the ways the helper can
+// give that answer.
+func guardAlternatives(gs []Guard) [][]Guard {
+	alts := [][]Guard{{}}
+	for _, g := range gs {
+		var options [][]Guard
+		for {
+			u, isU := g.Cond.(*ssa.UnOp)
+			if !isU || u.Op != token.NOT {
+				break
+			}
+			g = Guard{Cond: u.X, Pol: !g.Pol, If: g.If}
+		}
+		if hc, isCall := g.Cond.(*ssa.Call); isCall {
+			if h := rawStaticCallee(hc); h != nil && isHelper(h) && h.Signature.Results().Len() == 1 {
+				if bt, isB := h.Signature.Results().At(0).Type().Underlying().(*types.Basic); isB && bt.Kind() == types.Bool {
+					h = originFn(h)
+					ht.ctx[h] = hc
+					okAll := true
+					for _, ret := range plainReturnsOf(h) {
+						var sub [][]Guard
+						var okS bool
+						if g.Pol {
+							sub, okS = truthAlts(ret.Results[0], 0)
+						} else {
+							sub, okS = falseAlts(ret.Results[0], 0)
+						}
+						if !okS {
+							okAll = false
+							break
+						}
+						for _, a := range sub {
+							options = append(options, expandBoolGuards(append(append([]Guard{g}, plainGuardsOf(ret.Block())...), a...), 0))
+						}
+					}
+					if !okAll {
+						options = nil
+					}
+				}
+			}
+		}
+		if options == nil {
+			options = [][]Guard{{g}}
+		}
+		var next [][]Guard
+		for _, a := range alts {
+			for _, o := range options {
+				if len(next) > 64 {
+					break
+				}
+				next = append(next, append(append([]Guard{}, a...), o...))
+			}
+		}
+		alts = next
+	}
+	return alts
+}
+
+// dateFieldsOfOne: the first three arguments of a time.Date call are the year, month and day
+// fields of one and the same klog date value (month possibly converted to time.Month).
+func dateFieldsOfOne(args []ssa.Value) bool {
+	if len(args) < 3 {
+		return false
+	}
+	var base ssa.Value
+	for i, want := range []string{"year", "month", "day"} {
+		v := plainDeref(args[i])
+		for {
+			if cv, isC := v.(*ssa.Convert); isC {
+				v = plainDeref(cv.X)
+				continue
+			}
+			if ct, isT := v.(*ssa.ChangeType); isT {
+				v = plainDeref(ct.X)
+				continue
+			}
+			break
+		}
+		b, fld := fieldLoad(v)
+		if fld != want || b == nil || typeNameOf(b.Type()) != "date" {
+			return false
+		}
+		if base != nil && b != base {
+			return false
+		}
+		base = b
+	}
+	return true
+}
+
+func dateFieldBase(v ssa.Value) ssa.Value {
+	b, _ := fieldLoad(v)
+	return b
+}
+
+const blankSeparatorsFinding = "IsBlank knows space and tab only: a line consisting of other space separators (U+00A0, U+2003, U+3000 …) is a blank line by the specification but a significant line for the parser, so a conforming text such as \"2020-01-01\\n\\u00a0\\n2020-01-02\\n\" is rejected"
